@@ -275,6 +275,8 @@ package encoding
 //@   ensures  accepts: len(src) >= 1 && src[0] <= 3 && itemsCount < (1<<56) && uint64(len(src)) == 1 + uint64(u64width(src[0])) * itemsCount ==> result1 == nil
 //
 // ---- compressed blocks (zstd is external: assumed) ----
+// Whatever size threshold selects the plain form, a block tagged plain stores its source length in ONE byte and the source
+// itself: decompressBlock's plain branch (plainok / plainbody below) then returns exactly the source.
 //@ func zstd.Compress
 //@   assumed external compressor (github.com/klauspost/compress/zstd wrapper); appends to dst
 //@   modifies dst[len(dst):cap(dst)]
@@ -289,8 +291,10 @@ package encoding
 //@   modifies dst[len(dst):cap(dst)]
 //@   ensures  shape: appendShape(result, dst) && len(result) > len(dst)
 //@   ensures  prefix: result[:len(dst)] == old(dst[:])
-//@   ensures  plainhdr: len(src) < 128 ==> len(result) == len(dst) + 2 + len(src) && result[len(dst)] == 0 && int(result[len(dst)+1]) == len(src)
-//@   ensures  plainbody: len(src) < 128 ==> result[len(dst)+2:] == old(src[:])
+//@   ensures  tagged: result[len(dst)] == 0 || result[len(dst)] == 1
+//@   ensures  plainhdr: result[len(dst)] == 0 ==> len(result) == len(dst) + 2 + len(src) && int(result[len(dst)+1]) == len(src)
+//@   ensures  plainbody: result[len(dst)] == 0 ==> result[len(dst)+2:] == old(src[:])
+//@   ensures  small-is-plain: len(src) < 128 ==> result[len(dst)] == 0
 //@ func decompressBlock
 //@   mode int
 //@   modifies dst[len(dst):cap(dst)]
@@ -513,3 +517,31 @@ package encoding
 //@   ensures  const-means-all-equal-first: result1 == EncodeTypeConst ==> result2 == a[0] && samehdr(result0, dst) && (forall k :: 0 <= k && k < len(a) ==> a[k] == a[0])
 //@   ensures  delta-const-list: result1 == EncodeTypeDeltaConst ==> len(a) >= 2 && result2 == a[0] && (forall k :: 1 <= k && k < len(a) ==> wrap(a[k] - a[k-1]) == wrap(a[1] - a[0]))
 //@   ensures  delta-of-delta-needs-two: result1 == EncodeTypeDeltaOfDelta ==> len(a) >= 2
+//
+// ---- variable-length integers: value round trip (zz_harness_verif.go composes the real encoder and decoder) ----
+// Every int64 / uint64 survives encode + decode exactly, and the decoder consumes exactly the bytes the encoder wrote.
+// Both bodies are inlined and their loops unrolled to the 10 bytes a 64-bit value can take: a complete proof over all
+// 2^64 inputs, not a bounded stand-in.
+//@ func verifVarInt64RoundTrip
+//@   property C11
+//@   mode bv
+//@   inline VarInt64ToBytes
+//@   inline VarInt64ListToBytes
+//@   inline-loop VarInt64ListToBytes 0 unroll 1
+//@   inline-loop VarInt64ListToBytes 1 unroll 10
+//@   inline BytesToVarInt64
+//@   inline BytesToVarInt64List
+//@   inline-loop BytesToVarInt64List 0 unroll 1
+//@   inline-loop BytesToVarInt64List 1 unroll 10
+//@   ensures  exact: result2 == nil && result0 == v && result1 == 0
+//@ func verifVarUint64RoundTrip
+//@   property C11
+//@   mode bv
+//@   inline VarUint64ToBytes
+//@   inline VarUint64sToBytes
+//@   inline-loop VarUint64sToBytes 0 unroll 1
+//@   inline-loop VarUint64sToBytes 1 unroll 10
+//@   inline BytesToVarUint64s
+//@   inline-loop BytesToVarUint64s 0 unroll 1
+//@   inline-loop BytesToVarUint64s 1 unroll 10
+//@   ensures  exact: result2 == nil && result0 == u && result1 == 0
